@@ -16,6 +16,8 @@ def gen_delays(rng, n_sets=1, skew=None):
         else:
             rows.append([rng.choice(DYADIC) for _ in range(4)])
     if rng.random() < 0.15: rows.append([0, 0, 0, 0])
+    if rng.random() < 0.3:      # values that are not exactly representable (SDF decimals): float32 and float64 tables round differently
+        for _ in range(rng.randint(1, 3)): rows.append([rng.choice([0.1, 0.137, 1.3, 2.7, 0.05, 3.333]) for _ in range(4)])
     return {'n_sets': n_sets, 'rows': rows, 'skew': skew, 'f32': rng.random() < 0.5, 'ndim3': n_sets == 1 and rng.random() < 0.3,
             'short': rng.choice([0, 0, 0, 0, 1, 3])}      # > 0: the array covers all lines but the last few (the simulator pads with zero delay)
 
